@@ -668,6 +668,8 @@ func runC05(c *core.Ctx) core.Meta {
 	_ = sort.Strings
 	checkIntegerWidths(c, "R05.14", "Device-range tests in the allocator do not rest on an unsigned difference that wraps.", 5, []widthScope{{rel: drvIntPkg}}, []string{"unsigned-diff", "unsigned-bound-minus-one"}, widthAllowC05)
 	checkParallelEngineFlag(c)
+	checkEngineLeavesOnlyWithoutRerun(c)
+	checkNoCompactionWhileRanging(c, "R05.17", 5, NewPkgInfo(c, cuPkg))
 	return core.Meta{Level: "other",
 		Explanation: "Structural sources of host-dependent order and values in the code that runs inside a simulation (driver, emulator, decoder, kernels, protocol, sampling, all timing components, timing configuration, NVIDIA model): every range over a map is classified as order-insensitive or justified by a one-line exception (re-validated where possible), host-dependent value sources are enumerated against an exception table whose sinks are checked to have no reader, goroutines/selects and unstable sorts are inventoried, and the simulation goroutine is woken only by a call that blocks until the queue is empty.",
 		NotDecided:  "equality of whole runs across host schedules; akita's engines (outside /repo); the parallel engine; floating-point summation order inside kernels",
